@@ -423,6 +423,6 @@ def parts(tier):
     q = tier == "quick"
     return [
         {"name": "examples-and-corpus", "kind": "fixed", "cases": _fixed_cases},
-        {"name": "random", "kind": "hypothesis", "strategy": s_case, "examples": 2400 if q else 16 * 2500},
-        {"name": "buffer-straddling", "kind": "hypothesis", "strategy": s_straddle_case, "examples": 480 if q else 16 * 400},
+        {"name": "random", "kind": "hypothesis", "strategy": s_case, "examples": 2400 if q else 16 * 8000},
+        {"name": "buffer-straddling", "kind": "hypothesis", "strategy": s_straddle_case, "examples": 480 if q else 16 * 1200},
     ]
